@@ -110,7 +110,7 @@ var registry = map[string]check{
 		assumptions: []string{"closures capturing a loop variable and outliving the iteration are not generated (language-version dependent, DESIGN.md 3)"},
 	},
 	"C04": {
-		parts: []part{{"compiled", layerc.C04, 16, 160}}, replay: layerc.Replay, level: "exploration", components: compC,
+		parts: []part{{"compiled", layerc.C04, 16, 160}, {"matrix", layerc.C04M, 2, 32}}, replay: layerc.Replay, level: "exploration", components: compC,
 		rule:        "cases = (generator from the range profile: range over slice/array/string incl. multi-byte and invalid UTF-8/map/closed channel/int incl. <= 0/typed small integer x forms k,v := | k := | _,v := | none | k,v = x yielding and non-yielding bodies, break/continue, nesting, ranges inside closures x mutation of the ranged collection in the body: element writes, append, reslice, map delete/overwrite; range expression with an effect; array operands that are not addressable (call, composite literal, field of a call result); '=' forms onto typed variables and with a value operand indexed by the key; integer limits at the boundaries of their types; closures and nested generators capturing the variable of an integer range beyond its iteration; non-yielding loops with continue/break inside a switch) x argument vectors x drain; oracle: full history equality with the reference, which executes Go's own range. Multi-entry maps only with order-insensitive (commutative) bodies." + ruleC,
 		assumptions: []string{"known finding A6 (array operand is not copied) is quarantined: no write to a ranged array when the value variable is present"},
 	},
@@ -120,7 +120,7 @@ var registry = map[string]check{
 		assumptions: []string{},
 	},
 	"C06": {
-		parts: []part{{"compiled", layerc.C06, 16, 160}}, replay: layerc.Replay, level: "exploration", components: compC,
+		parts: []part{{"compiled", layerc.C06, 16, 160}, {"matrix", layerc.C06M, 2, 32}}, replay: layerc.Replay, level: "exploration", components: compC,
 		rule:        "cases = plain (non-generator) functions of a processed file consuming generators with for v := range / for v = range / pull loops, break/continue/return in the body, re-declaration of the loop variable, nested consumer loops, plus hand-written declarations that put the iterator type in results, parameters, struct fields, map values, slices, closures, type arguments, generic and method generators and mix pull and range on one iterator value; '=' loops onto index / field / pointer operands; a loop variable captured and then re-declared by a mixed ':='; a generator ranging over a package-level iterator variable that a plain file re-assigns between two pulls; x argument vectors; the observation is the two-sided history (generator-side effects count the pulls). Oracle: history equality with the reference (Go's range-over-func on refco)." + ruleC,
 		assumptions: []string{},
 	},
